@@ -10,6 +10,8 @@ FUNCTIONS = (
     + ["bacpypes.task:TaskManager.suspend_task[heap of %d, entry %d]" % (k, j) for k in range(SUSPEND_BOUND + 1) for j in range(k)]
     + ["bacpypes.task:TaskManager.get_next_task[heap of %d]" % k for k in range(HEAP_BOUND + 2)]
     + ["bacpypes.task:_Task.install_task", "bacpypes.task:RecurringTask.install_task", "bacpypes.core:deferred"]
+    + ["bacpypes.task:TaskManager.process_task[%s, heap of %d]" % (c, k) for c in ("OneShotTask", "OneShotDeleteTask") for k in range(3)]
+    + ["bacpypes.task:TaskManager.process_task[RecurringTask]"]
     + ["bacpypes.core:%s[block: drain of %d deferred functions%s]" % (f, k, n) for f in ("run", "run_once") for k in range(DRAIN_BOUND + 1)
        for n in (("", ", first defers another") if k > 0 else ("",))])
 LEMMAS = ["C14.order", "C14.ties_in_installation_order", "C14.suspended_does_not_fire", "C14.reinstall_moves", "C14.recurring_successive_slots"]
